@@ -1,95 +1,250 @@
 //! Structural features of a written column (the stack of validity / offset layers above each leaf,
-//! as the rep/def builder of lance sees them) and the mapping of a failing input to the
-//! known-finding classes of C26 / C27 (KNOWN_FINDINGS.txt).  A failure is tagged only when the input
-//! has the features of the class AND the failure has the signature reproduced for that class.
-use crate::e2e::Case;
+//! as the rep/def builder of lance sees them, per written batch) and the mapping of a failing input
+//! to the known-finding classes (KNOWN_FINDINGS.txt: the classes of C27 re-used under their names,
+//! and the classes found by this arm).  Every predicate was fitted against `hx_c25 probe-shapes`
+//! (all stacks to depth 3, one and two pages), `probe-fsl` and `probe-dup` on the unchanged tree.
+use crate::e2e::{Case, Failure};
 use arrow_array::cast::AsArray;
 use arrow_array::*;
 use arrow_schema::DataType;
 use lance_encoding::version::LanceFileVersion;
 use serde_json::{json, Value};
+use std::collections::BTreeMap;
 
+#[derive(Clone, Debug, PartialEq)]
+pub enum Kind {
+    Struct,
+    List,
+    Leaf,
+}
+
+/// one validity / offsets layer of one batch
 #[derive(Clone, Debug)]
-pub enum Layer {
-    /// struct / leaf validity: has nulls?
-    Item { nulls: bool, kind: &'static str },
-    /// list offsets: null lists? empty lists?
-    List { nulls: bool, empties: bool },
-    Fsl { nulls: bool },
+pub struct Layer {
+    pub kind: Kind,
+    pub nulls: bool,
+    pub empties: bool, // lists only
 }
 
 #[derive(Clone, Debug)]
-pub struct LeafPath {
-    pub path: String,
+pub struct LeafBatch {
     pub layers: Vec<Layer>,
-    pub leaf_type: String,
-    pub max_value_bytes: usize,
+    /// number of leaf slots / of valid leaf values in the batch
+    pub slots: usize,
+    pub valid: usize,
+    /// fixed-size-list leaf: its flattened items, and how many of them are null
+    pub fsl_items: usize,
+    pub fsl_item_nulls: usize,
 }
 
 pub struct Features {
     pub version: LanceFileVersion,
-    pub leaves: Vec<LeafPath>,
+    /// leaf path -> one entry per non-empty written batch
+    pub leaves: BTreeMap<String, Vec<LeafBatch>>,
+    pub has_varwidth: bool,
 }
 
-fn walk(a: &ArrayRef, path: String, mut layers: Vec<Layer>, out: &mut Vec<LeafPath>) {
+fn count_fsl_items(a: &ArrayRef) -> (usize, usize) {
+    match a.data_type() {
+        DataType::FixedSizeList(_, _) => count_fsl_items(a.as_fixed_size_list().values()),
+        _ => (a.len(), a.null_count()),
+    }
+}
+
+fn walk(a: &ArrayRef, path: String, mut layers: Vec<Layer>, out: &mut Vec<(String, LeafBatch)>) {
     match a.data_type() {
         DataType::Struct(fields) => {
-            layers.push(Layer::Item { nulls: a.null_count() > 0, kind: "struct" });
+            layers.push(Layer { kind: Kind::Struct, nulls: a.null_count() > 0, empties: false });
             let s = a.as_struct();
             for (k, f) in fields.iter().enumerate() {
                 walk(s.column(k), format!("{path}.{}", f.name()), layers.clone(), out);
             }
         }
         DataType::List(_) | DataType::LargeList(_) => {
-            let (values, lens, nulls): (ArrayRef, Vec<usize>, bool) = if let DataType::List(_) = a.data_type() {
+            let (values, lens): (ArrayRef, Vec<usize>) = if let DataType::List(_) = a.data_type() {
                 let l = a.as_list::<i32>();
-                (l.values().slice(l.value_offsets()[0] as usize, (l.value_offsets()[l.len()] - l.value_offsets()[0]) as usize), (0..l.len()).map(|i| l.value_length(i) as usize).collect(), l.null_count() > 0)
+                let o = l.value_offsets();
+                (l.values().slice(o[0] as usize, (o[l.len()] - o[0]) as usize), (0..l.len()).map(|i| l.value_length(i) as usize).collect())
             } else {
                 let l = a.as_list::<i64>();
-                (l.values().slice(l.value_offsets()[0] as usize, (l.value_offsets()[l.len()] - l.value_offsets()[0]) as usize), (0..l.len()).map(|i| l.value_length(i) as usize).collect(), l.null_count() > 0)
+                let o = l.value_offsets();
+                (l.values().slice(o[0] as usize, (o[l.len()] - o[0]) as usize), (0..l.len()).map(|i| l.value_length(i) as usize).collect())
             };
             let empties = (0..a.len()).any(|i| a.is_valid(i) && lens[i] == 0);
-            layers.push(Layer::List { nulls, empties });
+            layers.push(Layer { kind: Kind::List, nulls: a.null_count() > 0, empties });
+            // items behind null lists are not encoded: only the items of valid lists count
+            let keep: Vec<u64> = {
+                let mut pos = 0usize;
+                let mut k = vec![];
+                for i in 0..a.len() {
+                    if a.is_valid(i) {
+                        k.extend((pos..pos + lens[i]).map(|x| x as u64));
+                    }
+                    pos += lens[i];
+                }
+                k
+            };
+            let values = if keep.len() == values.len() { values } else { arrow_select::take::take(values.as_ref(), &UInt64Array::from(keep), None).unwrap() };
             walk(&values, format!("{path}[]"), layers, out);
         }
-        DataType::FixedSizeList(_, _) => {
-            layers.push(Layer::Fsl { nulls: a.null_count() > 0 });
-            let l = a.as_fixed_size_list();
-            walk(l.values(), format!("{path}<>"), layers, out);
+        _ => {
+            // a fixed-size list of primitives is a leaf of the structural encoding
+            layers.push(Layer { kind: Kind::Leaf, nulls: a.null_count() > 0, empties: false });
+            let (fsl_items, fsl_item_nulls) = if matches!(a.data_type(), DataType::FixedSizeList(_, _)) { count_fsl_items(a) } else { (0, 0) };
+            out.push((path, LeafBatch { layers, slots: a.len(), valid: a.len() - a.null_count(), fsl_items, fsl_item_nulls }));
         }
-        dt => {
-            layers.push(Layer::Item { nulls: a.null_count() > 0, kind: "leaf" });
-            let max_value_bytes = match dt {
-                DataType::Utf8 => { let x = a.as_string::<i32>(); (0..x.len()).map(|i| x.value(i).len()).max().unwrap_or(0) }
-                DataType::LargeUtf8 => { let x = a.as_string::<i64>(); (0..x.len()).map(|i| x.value(i).len()).max().unwrap_or(0) }
-                DataType::Binary => { let x = a.as_binary::<i32>(); (0..x.len()).map(|i| x.value(i).len()).max().unwrap_or(0) }
-                DataType::LargeBinary => { let x = a.as_binary::<i64>(); (0..x.len()).map(|i| x.value(i).len()).max().unwrap_or(0) }
-                _ => 0,
-            };
-            out.push(LeafPath { path, layers, leaf_type: format!("{dt:?}"), max_value_bytes });
-        }
+    }
+}
+
+fn has_varwidth(dt: &DataType) -> bool {
+    match dt {
+        DataType::Utf8 | DataType::LargeUtf8 | DataType::Binary | DataType::LargeBinary | DataType::List(_) | DataType::LargeList(_) => true,
+        DataType::Struct(fs) => fs.iter().any(|f| has_varwidth(f.data_type())),
+        DataType::FixedSizeList(f, _) => has_varwidth(f.data_type()),
+        DataType::Dictionary(_, v) => has_varwidth(v),
+        _ => false,
     }
 }
 
 impl Features {
     pub fn of(case: &Case) -> Features {
-        let mut leaves = vec![];
+        let mut leaves: BTreeMap<String, Vec<LeafBatch>> = BTreeMap::new();
         for (ci, f) in case.schema.fields().iter().enumerate() {
-            // per written batch: the writer builds rep/def per batch, pages are groups of batches
-            for (bi, b) in case.batches.iter().enumerate() {
+            for b in case.batches.iter() {
                 if b.num_rows() > 0 {
-                    walk(b.column(ci), format!("{}#{}", f.name(), bi), vec![], &mut leaves);
+                    let mut out = vec![];
+                    walk(b.column(ci), f.name().to_string(), vec![], &mut out);
+                    for (p, lb) in out {
+                        leaves.entry(p).or_default().push(lb);
+                    }
                 }
             }
         }
-        Features { version: case.version, leaves }
+        Features { version: case.version, leaves, has_varwidth: case.schema.fields().iter().any(|f| has_varwidth(f.data_type())) }
     }
     pub fn describe(&self) -> Value {
-        json!(self.leaves.iter().map(|l| format!("{} {:?} {}", l.path, l.layers, l.leaf_type)).take(24).collect::<Vec<_>>())
+        json!(self
+            .leaves
+            .iter()
+            .map(|(p, bs)| format!(
+                "{p}: {}",
+                bs.iter()
+                    .map(|b| b.layers.iter().map(|l| format!("{}{}{}", match l.kind { Kind::Struct => "S", Kind::List => "L", Kind::Leaf => "V" }, if l.nulls { "?" } else { "" }, if l.empties { "e" } else { "" })).collect::<Vec<_>>().join(" ") + &format!(" ({}/{})", b.valid, b.slots))
+                    .collect::<Vec<_>>()
+                    .join(" | ")
+            ))
+            .take(16)
+            .collect::<Vec<_>>())
     }
 }
 
-/// the class a failing input belongs to, if its features and the failure signature match one
-pub fn classify(_f: &Features, _msg: &str) -> Option<&'static str> {
+/// flags of a candidate page = a run of consecutive batches
+fn group(bs: &[LeafBatch]) -> Vec<Layer> {
+    let mut g = bs[0].layers.clone();
+    for b in &bs[1..] {
+        for (k, l) in b.layers.iter().enumerate() {
+            g[k].nulls |= l.nulls;
+            g[k].empties |= l.empties;
+        }
+    }
+    g
+}
+fn has_def(l: &Layer) -> bool {
+    l.nulls || l.empties
+}
+fn groups(bs: &[LeafBatch]) -> Vec<&[LeafBatch]> {
+    let mut out = vec![];
+    for i in 0..bs.len() {
+        for j in i + 1..=bs.len() {
+            out.push(&bs[i..j]);
+        }
+    }
+    out
+}
+
+/// C27 allvalid_list_over_nullable_items: a list layer without null / empty lists above a layer that has definition levels
+fn k_allvalid_list(layers: &[Layer]) -> bool {
+    layers.iter().enumerate().any(|(i, l)| l.kind == Kind::List && !has_def(l) && layers[i + 1..].iter().any(has_def))
+}
+/// C27 list_of_nullable_struct_repdef (F21): a struct with nulls below a list that has null or empty lists
+fn k_list_nullable_struct(layers: &[Layer]) -> bool {
+    layers.iter().enumerate().any(|(i, l)| l.kind == Kind::List && has_def(l) && layers[i + 1..].iter().any(|x| x.kind == Kind::Struct && x.nulls))
+}
+
+impl Features {
+    fn structural(&self) -> bool {
+        self.version != LanceFileVersion::V2_0
+    }
+    fn any_leaf(&self, f: impl Fn(&[LeafBatch]) -> bool) -> bool {
+        self.leaves.values().any(|bs| f(bs))
+    }
+    pub fn in_list_of_nullable_struct(&self) -> bool {
+        self.structural() && self.any_leaf(|bs| groups(bs).iter().any(|g| k_list_nullable_struct(&group(g))))
+    }
+    pub fn in_allvalid_list(&self) -> bool {
+        self.structural() && self.any_leaf(|bs| groups(bs).iter().any(|g| k_allvalid_list(&group(g))))
+    }
+    /// C27 composite_allvalid_item_outside_list: more than one page; an item layer outside every list is
+    /// all-valid in one page and has nulls in another; there is a list below it
+    pub fn in_composite_allvalid_item(&self) -> bool {
+        self.structural()
+            && self.any_leaf(|bs| {
+                bs.len() > 1 && {
+                    let first_list = bs[0].layers.iter().position(|l| l.kind == Kind::List);
+                    match first_list {
+                        None => false,
+                        Some(p) => (0..p).any(|k| bs.iter().any(|b| b.layers[k].nulls) && bs.iter().any(|b| !b.layers[k].nulls)),
+                    }
+                }
+            })
+    }
+    /// C27 composite_rep_only_truncate: more than one page, at least two list layers, a page without any
+    /// definition level
+    pub fn in_composite_rep_only(&self) -> bool {
+        self.structural() && self.any_leaf(|bs| bs.len() > 1 && bs[0].layers.iter().filter(|l| l.kind == Kind::List).count() >= 2 && groups(bs).iter().any(|g| !group(g).iter().any(has_def)))
+    }
+    /// C27 complex_all_null_page_rows_as_levels: a page of a list column without any valid leaf value
+    pub fn in_complex_all_null(&self) -> bool {
+        self.structural() && self.any_leaf(|bs| bs[0].layers.iter().any(|l| l.kind == Kind::List) && groups(bs).iter().any(|g| g.iter().all(|b| b.valid == 0)))
+    }
+    /// C25 fsl_items_all_null: a page of a fixed-size-list column all of whose items are null
+    pub fn in_fsl_items_all_null(&self) -> bool {
+        self.structural() && self.any_leaf(|bs| groups(bs).iter().any(|g| g.iter().map(|b| b.fsl_items).sum::<usize>() > 0 && g.iter().all(|b| b.fsl_items == b.fsl_item_nulls)))
+    }
+}
+
+/// 2.0, take with an index repeated at the first row of a page of a variable-width column
+fn dup_first_row(f: &Features, fail: &Failure) -> bool {
+    if f.version != LanceFileVersion::V2_0 || !f.has_varwidth {
+        return false;
+    }
+    let Some(idx) = &fail.indices else { return false };
+    idx.windows(2).any(|w| w[0] == w[1] && (w[0] == 0 || fail.page_starts.contains(&w[0])))
+}
+
+/// the class a failure of this input belongs to, if any
+pub fn classify(f: &Features, fail: &Failure) -> Option<&'static str> {
+    if dup_first_row(f, fail) {
+        return Some("Known_C25_v20_take_repeats_first_row_of_page");
+    }
+    if f.in_list_of_nullable_struct() {
+        return Some("list_of_nullable_struct_repdef");
+    }
+    if f.in_allvalid_list() {
+        return Some("allvalid_list_over_nullable_items");
+    }
+    if f.in_complex_all_null() {
+        return Some("complex_all_null_page_rows_as_levels");
+    }
+    if f.in_fsl_items_all_null() {
+        return Some("Known_C25_fsl_items_all_null");
+    }
+    // composites need a batch that draws on two pages: reads only
+    if fail.is_read && f.in_composite_allvalid_item() {
+        return Some("composite_allvalid_item_outside_list");
+    }
+    if fail.is_read && f.in_composite_rep_only() {
+        return Some("composite_rep_only_truncate");
+    }
     None
 }
